@@ -154,7 +154,7 @@ class ObjListInterp(FlowInterp):
         return frozenset([LIST_FRESH]) if not bad else states
 
 
-@rule("OW2", "a segment's object list is mutated only after it was copied; index dictionaries are immutable and ordered", floor=8)
+@rule("OW2", "a segment's object list is mutated only after it was copied; index dictionaries are immutable and ordered", floor=5)
 def ow2(ctx, R):
     prog = ctx.prog
     seg = prog.cls("tdms_segment.TdmsSegment")
@@ -375,8 +375,12 @@ def hd1(ctx, R):
             raise AnchorMissing("tdms_segment.%s" % name)
         consts[v] = kind
     want = {"NO_DATA": False, "MATCHES": True, "NEW_INDEX": True}
-    for q in ("tdms_segment.TdmsSegment._update_existing_object", "tdms_segment.TdmsSegment._reuse_previous_object"):
-        fi = prog.func(q)
+    # the functions that restate the index of an object seen before, found by their shape: a parameter compared with the
+    # RAW_DATA_INDEX_* constants and exactly one other parameter used as an object
+    restaters = []
+    for fi in sorted(prog.functions.values(), key=lambda f: f.qual):
+        if fi.module is not mod:
+            continue
         params = [p_ for p_ in fi.params if p_ != "self"]
         hdr = None
         for n in ast.walk(fi.node):
@@ -385,12 +389,17 @@ def hd1(ctx, R):
                     if isinstance(a, ast.Name) and a.id in params and prog.try_fold(b, mod, default="?") in consts:
                         hdr = a.id
         if hdr is None:
-            raise AnchorMissing("%s: parameter compared with the RAW_DATA_INDEX_* constants" % q)
+            continue
         objs = [p_ for p_ in params if p_ != hdr and any(isinstance(n, ast.Attribute) and isinstance(n.ctx, ast.Load) and isinstance(n.value, ast.Name) and n.value.id == p_
                                                       and n.attr not in ("read", "seek", "tell") for n in ast.walk(fi.node))]
-        if len(objs) != 1:
-            raise AnchorMissing("%s: the object parameter (candidates %s)" % (q, objs))
-        obj_param = objs[0]
+        if len(objs) == 1:
+            restaters.append((fi, params, hdr, objs[0]))
+    if not restaters:
+        R.unrecognised("tdms_segment::restating an object's index", mod.relpath, "no function with a header parameter compared with RAW_DATA_INDEX_* and one "
+                    "object parameter: how the index of an object seen before is restated was not recognised")
+    for fi, params, hdr, obj_param in restaters:
+        q = fi.qual
+        returns_obj = any(isinstance(n, ast.Return) and n.value is not None for n in walk_body(fi.node))
         replaces = any(isinstance(n, ast.Subscript) and isinstance(n.ctx, ast.Store) and isinstance(n.value, ast.Attribute) and n.value.attr == "ordered_objects"
                        for n in ast.walk(fi.node))
         for kind in ("NO_DATA", "MATCHES", "NEW_INDEX"):
@@ -411,6 +420,8 @@ def hd1(ctx, R):
                 unknown = None
                 for st in outs:
                     placed = st.placed
+                    if placed is None and returns_obj and isinstance(st.ret, tuple) and st.ret and st.ret[0] == "obj":
+                        placed = st.ret          # the function hands the object back; its caller puts it in the list
                     if placed is None:
                         if not replaces:
                             bad = "no object is appended to the segment's list on some path"
@@ -492,8 +503,22 @@ def rj1(ctx, R):
             ("a raise on `header == RAW_DATA_INDEX_MATCHES_PREVIOUS` exists but only for objects that were seen before" if seen_any else
              "no raise is guarded by `raw_data_index_header == RAW_DATA_INDEX_MATCHES_PREVIOUS`") + ": an index that was never defined would be read as data")
     # (b) metadata-less first segment
-    rp = prog.func("tdms_segment.TdmsSegment._reuse_previous_segment_metadata")
-    pp = ("param", [p for p in rp.params if p != "self"][0])
+    # the function that lets a segment inherit its predecessor's object list, found by what it does:
+    #     <self or parameter>.ordered_objects = <parameter>.ordered_objects
+    rp = pp = None
+    for f in sorted(prog.functions.values(), key=lambda f: f.qual):
+        if f.module is not mod:
+            continue
+        sy_ = None
+        for n in walk_body(f.node):
+            if isinstance(n, ast.Assign) and any(isinstance(t, ast.Attribute) and t.attr == "ordered_objects" for t in n.targets) and rp is None:
+                sy_ = sy_ or Sym(prog, f, f.cls, inline=False)
+                env_, _g = sy_.env_at(n)
+                v_ = sy_.expr(n.value, env_)
+                if v_[0] == "attr" and v_[2] == "ordered_objects" and v_[1][0] == "param" and v_[1][1] != "self":
+                    rp, pp = f, v_[1]
+    if rp is None:
+        raise AnchorMissing("tdms_segment: function that takes over the previous segment's ordered_objects")
     has = False
     for n in walk_body(rp.node):
         if isinstance(n, ast.Try):
@@ -511,13 +536,28 @@ def rj1(ctx, R):
         if val is not None and val[0] == "raise" and not any(eval_cond(x, none_oracle) is False for x in guards) \
                 and any(eval_cond(x, none_oracle) is True for x in guards):
             has = True
-    R.check(has, "tdms_segment.TdmsSegment._reuse_previous_segment_metadata::no previous segment", rp.where(),
+    R.check(has, "%s::no previous segment" % rp.qual, rp.where(),
             "raises when a segment without metadata has no predecessor", "a first segment without metadata is not rejected")
     cfg = ctx.cfg(fi)
     R.check(bool(nodes_reaching(ctx, fi, cfg, {rp.qual})), "tdms_segment.TdmsSegment.read_segment_objects::metadata-less segments reuse previous metadata", fi.where(),
-            "delegates to _reuse_previous_segment_metadata", "metadata-less segments are not routed through _reuse_previous_segment_metadata")
+            "delegates to %s" % rp.name, "metadata-less segments are not routed through %s" % rp.name)
     # (c) data type change: truth table over (a type was stored before?, same type?)
-    ut = prog.func("reader._update_object_data_type")
+    # the function that updates a channel's recorded data type from a segment's object, found by what it does:
+    #     <parameter>.data_type = <other parameter>.data_type
+    cands = []
+    for f in sorted(prog.functions.values(), key=lambda f: f.qual):
+        if f.module.name != "reader":
+            continue
+        for n in walk_body(f.node):
+            if isinstance(n, ast.Assign) and any(isinstance(t, ast.Attribute) and t.attr == "data_type" and isinstance(t.value, ast.Name)
+                                                  and t.value.id in f.params and t.value.id not in ("self", "cls") for t in n.targets):
+                cands.append(f)
+                break
+    if not cands:
+        R.unrecognised("reader::type change rejected", prog.module("reader").relpath, "no function of nptdms.reader stores <parameter>.data_type: how a change of a "
+                    "channel's data type between segments is handled was not recognised")
+        return
+    ut = cands[0]
     ps = ut.params
     refs = set()
     for n in ast.walk(ut.node):
@@ -530,7 +570,7 @@ def rj1(ctx, R):
                 if isinstance(t, ast.Attribute) and t.attr == "data_type" and isinstance(t.value, ast.Name):
                     stored_p = t.value.id
     if stored_p is None or len(refs) < 2:
-        raise AnchorMissing("reader._update_object_data_type: stored and new data type")
+        raise AnchorMissing("%s: stored and new data type" % ut.qual)
     stored = ("attr", ("param", stored_p), "data_type")
     new = ("attr", ("param", [r for r in sorted(refs) if r != stored_p][0]), "data_type")
     paths = Sym(prog, ut, None, inline=False).function_paths()
@@ -551,7 +591,7 @@ def rj1(ctx, R):
             outs.add("raise" if val is not None and val[0] == "raise" else "accept")
         table[(was_none, same)] = outs
     ok = table[(True, False)] == {"accept"} and table[(False, False)] == {"raise"} and table[(False, True)] == {"accept"}
-    R.check(ok, "reader._update_object_data_type::type change rejected", ut.where(),
+    R.check(ok, "%s::type change rejected" % ut.qual, ut.where(),
             "raises when a channel's data type differs from the type seen before", "a channel changing data type is not rejected: first type %s, changed type %s, "
             "same type %s" % (sorted(table[(True, False)]), sorted(table[(False, False)]), sorted(table[(False, True)])))
     um = prog.func("reader.TdmsReader._update_object_metadata")
